@@ -315,7 +315,8 @@ def c12(tier, seed, case=None):
 def c13(tier, seed, case=None):
     v = _mk('C13', tier, seed, 'fault_enumeration',
             'per file (13 types x 4 (quick) / 16 (thorough) files of 1..4 records): truncation at EVERY length of the .shp (with the '
-            'intact .shx and without) and of the .shx; a fault at EVERY k-th read/seek of a full traversal (open, iterate to the end, '
+            'intact .shx and without; a sample of the lengths incl. every record boundary +-1 also as real files opened by path) and of the '
+            '.shx; a fault at EVERY k-th read/seek of a full traversal (open, iterate to the end, '
             'read_nth_shape for each i) on each source, one-shot and persistent, attributed to the call in progress by op-log epochs; '
             'short-read schedules (1..8 bytes, PRNG sequences). distinct = (file, kind, L | k, mode); all non-trivial',
             ['what an iterator does after its first error is not judged here (C07 bounds it)'])
